@@ -51,6 +51,8 @@ func init() {
 		Run:         runC08,
 		Configs:     []string{"linux/amd64"},
 		Mutants: []Mutant{
+			{Name: "prefilter-requires-use-of-symbol", File: "analysis/code/visit.go", Rule: "R8.7", KeyPart: "filters-on-use",
+				Old: "\t\t\t\treturn index.Object(node.Path, node.Ident) != nil\n", New: "\t\t\t\treturn index.Used(index.Object(node.Path, node.Ident))\n"},
 			{Name: "entry-table-wrong-kind", File: "pattern/parser.go", Rule: "R8.1", KeyPart: "SliceExpr",
 				Old: "reflect.TypeFor[SliceExpr]():               {reflect.TypeFor[*ast.SliceExpr]()},", New: "reflect.TypeFor[SliceExpr]():               {reflect.TypeFor[*ast.IndexExpr]()},"},
 			{Name: "any-misses-kind", File: "pattern/parser.go", Rule: "R8.1", KeyPart: "allTypes",
@@ -417,6 +419,56 @@ func runC08(c *Ctx) {
 			c.Check(key, vfd.Pos(), handled[k], "collectSymbols can return a pattern.%s, but CouldMatchAny has no case for it and panics in its default", k)
 		}
 		c.Note("R8.4: collectSymbols returns %v; CouldMatchAny handles %v", SortedKeys(ret), SortedKeys(handled))
+	})
+
+	// R8.7: the package-level filter decides on visibility, not on use. Symbol.Match
+	// compares names after peeling aliases (os.FileMode matches io/fs.FileMode), so a
+	// node can match a symbol although no identifier of the package resolves to the
+	// symbol's own object; a filter that asks the index for uses/calls of the object
+	// rejects such packages and drops real matches.
+	c.Rule("R8.7", func() {
+		c.Floor("R8.7", 2)
+		cma := c.Func("analysis/code", "CouldMatchAny")
+		var all []*ssa.Function
+		var walk func(f *ssa.Function)
+		walk = func(f *ssa.Function) {
+			all = append(all, f)
+			for _, a := range f.AnonFuncs {
+				walk(a)
+			}
+		}
+		walk(cma)
+		peels := false
+		for _, fn := range c.ModuleFuncs() {
+			if FuncPkgPath(fn) == patternPkg && strings.Contains(fn.String(), "Symbol).Match") {
+				if len(CallsTo(fn, true, "go/types.Unalias")) > 0 {
+					peels = true
+				}
+			}
+		}
+		c.Note("R8.7: Symbol.Match peels aliases: %v", peels)
+		visible, n := 0, 0
+		for _, f := range all {
+			for _, ci := range Calls(f, false) {
+				name := CalleeName(ci.Common())
+				if !strings.Contains(name, "typeindex.Index.") {
+					continue
+				}
+				m := name[strings.LastIndex(name, ".")+1:]
+				switch m {
+				case "Object", "Selection":
+					visible++
+					c.Check(FuncKey(cma)+"::filters-on-visibility::"+m, ci.Pos(), true, "asks whether the symbol is visible to the package")
+				case "Package":
+				default:
+					c.Check(FuncKey(cma)+"::filters-on-use::"+m+"#"+itoa(n), ci.Pos(), !peels, "CouldMatchAny asks the index for %s of a symbol's object, but Symbol.Match accepts a type reached through an alias declared elsewhere (types.Unalias), so a package can contain a match without any identifier that resolves to that object; the filter may only test visibility (Index.Object / Index.Selection != nil)", m)
+					n++
+				}
+			}
+		}
+		if visible < 2 {
+			c.Undecided("CouldMatchAny no longer looks symbols up with Index.Object/Index.Selection (%d lookups)", visible)
+		}
 	})
 
 	c.Rule("R8.5", func() {
